@@ -281,6 +281,8 @@ class PandasModelBase(
         res = numpy.where(cond, a, b)
         bad_posns = self.bad_column_positions(cond)
         if numpy.any(bad_posns):
+            if res.dtype.kind in "iub":
+                res = res.astype(float)  # integer/bool arrays cannot hold a missing value
             res[bad_posns] = None
         return res
 
